@@ -103,6 +103,7 @@ type vCluster struct {
 	fetches    int
 	violations []string
 	sent       []vSentBatch
+	faultKinds string        // kinds of the faults injected so far, in order (part of the failure class)
 	holdFirst  bool          // withhold the answer to the first produce request ...
 	release    chan struct{} // ... until the driver has submitted everything
 	inFlightOnWire int
@@ -247,6 +248,7 @@ func (cl *vCluster) produce(b *Broker, req *ProduceRequest) (*ProduceResponse, e
 		kind = vChoose("fault", cl.faultMenu)
 		if kind != vfNone {
 			cl.faultsLeft--
+			cl.faultKinds += vItoa(int64(kind))
 		}
 	}
 	rec := vReqRec{broker: b.id, perPart: map[int32][]byte{}}
